@@ -10,6 +10,12 @@
 (*    outside the document) and releases what it opened, successful or     *)
 (*    not; a non-terminal one (PageCount) may keep the handle until Close; *)
 (*    Close is idempotent.                                                 *)
+(*  - Which terminal (Text, ToMarkdown, Fragments, Lines, Paragraphs,      *)
+(*    ReadingOrder, Analyze, Headings, Lists, Blocks, Elements, Document,  *)
+(*    Chunks, ChunksWithConfig) or non-terminal (PageCount,                *)
+(*    IsCharacterLevel, IsMultiColumn) operation is used makes no          *)
+(*    difference to the selection or to the handles: the operation's name  *)
+(*    is only carried into the log (via).                                  *)
 (* Modes (the last two are refutable implementation-shaped variants):      *)
 (*  "own"    derivation copies the selection; a derived extractor opens    *)
 (*           its own handle on demand (the contract and the repaired code) *)
@@ -22,7 +28,8 @@
 (***************************************************************************)
 EXTENDS Integers, Sequences, FiniteSets, TLC
 
-CONSTANTS MaxExt, MaxOps, Mode, NP      \* NP = pages of the document
+CONSTANTS MaxExt, MaxOps, Mode, NP,     \* NP = pages of the document
+          Terminals, NonTerminals        \* the public operations by name (the implementation has one page loop and one release per operation)
 
 VARIABLES ext,      \* sequence of extractors [reader, owns, opened, arr, len]
           arrays,   \* backing arrays: sequence of [cap, data] with data \in [1..cap -> Nat]
@@ -79,19 +86,19 @@ CloseIn(x, hs, e) == IF x[e].owns /\ x[e].reader # 0
                      THEN << [x EXCEPT ![e] = [@ EXCEPT !.reader = 0, !.owns = FALSE, !.opened = FALSE]], hs \ {x[e].reader} >>
                      ELSE <<x, hs>>
 
-NonTerminal(e) ==
+NonTerminal(e, v) ==
     LET s == Ensure(e) IN
     /\ ext' = s[1] /\ handles' = s[2] /\ nextH' = s[3]
-    /\ log' = Append(log, [op |-> "pagecount", e |-> e, kind |-> "-",
+    /\ log' = Append(log, [op |-> "pagecount", e |-> e, kind |-> v,
                            res |-> IF UseOK(s[1], s[2], e) THEN "ok" ELSE "closed", pages |-> <<>>, open |-> Cardinality(s[2])])
     /\ UNCHANGED arrays
 
-Terminal(e) ==
+Terminal(e, v) ==
     LET s == Ensure(e)
         c == CloseIn(s[1], s[2], e)
         r == ResultOf(Visible(ext, arrays, e)) IN
     /\ ext' = c[1] /\ handles' = c[2] /\ nextH' = s[3]
-    /\ log' = Append(log, [op |-> "text", e |-> e, kind |-> "-",
+    /\ log' = Append(log, [op |-> "text", e |-> e, kind |-> v,
                            res |-> IF ~UseOK(s[1], s[2], e) THEN "closed" ELSE IF r = <<-1>> THEN "error" ELSE "ok",
                            pages |-> IF r = <<-1>> THEN <<>> ELSE r, open |-> Cardinality(c[2])])
     /\ UNCHANGED arrays
@@ -104,7 +111,7 @@ Close(e) ==
 
 Next == /\ Len(log) < MaxOps
         /\ \E e \in 1..Len(ext) : \/ \E k \in Kinds : Derive(e, k)
-                                  \/ NonTerminal(e) \/ Terminal(e) \/ Close(e)
+                                  \/ (\E v \in NonTerminals : NonTerminal(e, v)) \/ (\E v \in Terminals : Terminal(e, v)) \/ Close(e)
 Spec == Init /\ [][Next]_vars
 
 \* ----------------------------------------------------------- properties
